@@ -490,6 +490,28 @@ def p_min(interp, *a):
     return _minmax(interp, a, False)
 
 
+def int_divmod(interp, a, b):
+    """Python floor division and modulo on integers: a = q*b + r with 0 <= r < b (b > 0) or b < r <= 0 (b < 0)."""
+    cx = interp.cx
+    if cx.branch(b == 0):
+        raise SymRaise(ExcValue("ZeroDivisionError"))
+    q, r = cx.fresh_int("fdiv"), cx.fresh_int("fmod")
+    cx.assume(z3.And(a == q * b + r, z3.Implies(b > 0, z3.And(0 <= r, r < b)), z3.Implies(b < 0, z3.And(b < r, r <= 0))),
+              tag="python floor division / modulo on ints")
+    return q, r
+
+
+@prim("builtins.divmod")
+def p_divmod(interp, a, b):
+    if isinstance(a, int) and isinstance(b, int):
+        if b == 0:
+            raise SymRaise(ExcValue("ZeroDivisionError"))
+        return divmod(a, b)
+    a = a.value if isinstance(a, V.Opt) else a
+    b = b.value if isinstance(b, V.Opt) else b
+    return int_divmod(interp, lift(a), lift(b))
+
+
 @prim("math.ceil")
 def p_ceil(interp, x):
     cx = interp.cx
@@ -623,6 +645,15 @@ class PrefixSum:
         cx.assume(z3.Implies(nonneg, z3.ForAll([i2, j], z3.Implies(z3.And(0 <= i2, i2 <= j, j <= n), self.f(i2) <= self.f(j)),
                                                patterns=[z3.MultiPattern(self.f(i2), self.f(j))])),
                   tag="prefix-sum-monotone (lemma proved by induction: theory.prefix_sum_monotone)")
+
+        # block lookup: blk(c) is the index of the block containing position c (canonical function, so that two
+        # evaluations of the same concatenation at the same position give the same term)
+        self.blk = cx.fresh_func("blk", z3.IntSort(), z3.IntSort())
+        c = z3.Int("c!q")
+        cx.assume(z3.ForAll([c], z3.Implies(z3.And(0 <= c, c < self.f(n)),
+                                            z3.And(0 <= self.blk(c), self.blk(c) < n, self.f(self.blk(c)) <= c,
+                                                   c < self.f(self.blk(c) + 1))), patterns=[self.blk(c)]),
+                  tag="cat-block-lookup (existence of the containing block: induction on the prefix sums)")
 
     def off(self, k):
         return self.f(lift(k))
@@ -791,16 +822,16 @@ def binop(interp, op, a, b, inplace=False):
             ra = z3.ToReal(lift(a)) if ia else lift(a)
             rb = z3.ToReal(lift(b)) if ib else lift(b)
             return ra / rb
-        if isinstance(op, ast.FloorDiv):
-            raise Unsupported("floor division")
-        if isinstance(op, ast.Mod):
+        if isinstance(op, (ast.FloorDiv, ast.Mod)):
             if isinstance(a, (int, float)) and isinstance(b, (int, float)):
-                return a % b
+                if b == 0:
+                    raise SymRaise(ExcValue("ZeroDivisionError"))
+                return a // b if isinstance(op, ast.FloorDiv) else a % b
             la, lb = lift(a), lift(b)
             if z3.is_real(la) or z3.is_real(lb):
-                # float % int on whole numbers (NashMTL.step): model through an integer counter
-                raise Unsupported("real modulo")
-            return la % lb
+                raise Unsupported("real floor division / modulo")
+            q, r = int_divmod(interp, la, lb)
+            return q if isinstance(op, ast.FloorDiv) else r
         if isinstance(op, ast.Pow):
             if isinstance(b, int) and b >= 0:
                 r = 1
